@@ -80,7 +80,7 @@ class C10(Check):
     rule = ("code bases under r/ (2-4 compiled files, 1-4 header names in 1-3 directories) plus header copies and sometimes a compiled file "
             "outside the root (x/), headers defining the macros other files test; 1-3 platforms x 1-4 commands; exclude lists = exact paths of a "
             "random subset of the files, directory / extension / base-name patterns, in 45 % of the cases also dir/*.ext, **/name, a/**/name, dir/**, /dir/ and negated lines (!name, !/path, !*.ext), split at random between -x and [codebase] exclude; each case "
-            "analysed with and without the exclusion (lib: finder.find + get_setmap; cli: summary with -x / toml / mixed, tree, coverage compute); "
+            "analysed with and without the exclusion (lib: finder.find + get_setmap; cli: summary with -x / toml / mixed, tree, tree --prune, coverage compute); "
             "exhaustive block: every subset of the in-root files of a micro code base x 2 configurations; malformed stream. "
             "non-trivial = some file is excluded or outside the root AND the model variant that skips non-members gives a different setmap "
             "(the case can tell 'not counted' from 'not processed')")
@@ -253,6 +253,10 @@ class C10(Check):
         self.dist["cli_inproc_calls"] += 2
         code, out = U.cli_inproc("tree", xflags(rx) + ["c.toml"], root)
         tree = [list(kv) for kv in sorted(U.parse_tree(out).items())] if code == 0 else ["exit", code]
+        # the pruned tree: the same report restricted to files some platform uses
+        self.dist["cli_inproc_calls"] += 1
+        code, out = U.cli_inproc("tree", ["--prune"] + xflags(rx) + ["c.toml"], root)
+        pruned = [list(kv) for kv in sorted(U.parse_tree(out).items())] if code == 0 else ["exit", code]
         p0 = cfg[0][0]
         cov_out = root / "cov.json"
         code, out = U.cli_inproc("cov", ["compute", "-S", str(root)] + xflags(rx + rt) + ["-o", str(cov_out), str(root / f"db_{p0}.json")], root)
@@ -260,7 +264,7 @@ class C10(Check):
             cov = sorted([d["file"], sorted(d["used_lines"]), sorted(d["unused_lines"])] for d in json.loads(cov_out.read_text()))
         else:
             cov = ["exit", code]
-        return ["Cli", rows_a, rows_b, rows_c, rows_0, tree, cov, []]
+        return ["Cli", rows_a, rows_b, rows_c, rows_0, tree, cov, pruned]
 
     # ---- views ----
     def predict(self, case, triples):
@@ -274,7 +278,8 @@ class C10(Check):
         names = [p for p, _ in cfg]
         tree = [list(kv) for kv in sorted(U.tree_prediction(triples, files, mem, names, strip=1).items())]
         cov = U.coverage_prediction(triples, files, mem, cfg[0][0], strip=1)
-        return ["Cli", sm, sm, sm, sm0, tree, cov, []]
+        pruned = [kv for kv in tree if kv[1][0]]
+        return ["Cli", sm, sm, sm, sm0, tree, cov, pruned]
 
     @staticmethod
     def triples_of(tr):
